@@ -10,7 +10,7 @@ git checkout -q -- . || exit 2
 git apply --check seed/patch.diff || { echo "VERIFY: patch does not apply"; exit 1; }
 git apply seed/patch.diff
 echo "--- files changed: $(git diff --stat | tail -1)"
-python3 /verif/tools/baseline_check.py "$WT" | tail -3; base=$?
+python3 /verif/tools/baseline_check.py "$WT" > /tmp/verify_base.txt; base=$?; tail -3 /tmp/verify_base.txt
 cargo build -q -p duckscript_cli --offline 2>&1 | tail -3
 bash -c "$DEMO" >/tmp/verify_demo_with.txt 2>&1; with=$?
 git checkout -q -- .
